@@ -26,9 +26,44 @@ def predict(progs, tag="core", shards=8, workers_per=2, timeout=900, dev=()):
                 f.write(json.dumps(pr) + "\n")
         paths.append(p)
 
+    oracle_errors = []
+
     def one(i):
-        return common.run_tlc("KotoCoreRun", "KotoCoreRun.cfg", workers=workers_per, env={"PROGS": paths[i]},
-                              timeout=timeout, coverage=False, tag="%s_pred%d" % (tag, i), xmx="3g")
+        """Run the oracle on one shard. A program on which the machine itself fails (a TLC evaluation error:
+        a gap in the specification, not a property violation) is dropped, recorded, and the shard re-run."""
+        part = parts[i]
+        merged = None
+        for attempt in range(12):
+            res = common.run_tlc("KotoCoreRun", "KotoCoreRun.cfg", workers=workers_per, env={"PROGS": paths[i]},
+                                 timeout=timeout, coverage=False, tag="%s_pred%d" % (tag, i), xmx="3g")
+            if merged is None:
+                merged = res
+            else:
+                merged.stdout += res.stdout
+                merged.distinct += res.distinct
+                merged.states_generated += res.states_generated
+            if res.rc == 0:
+                merged.rc = 0
+                return merged
+            import re
+            m = re.search(r"/\\ idx = (\d+)", res.stdout) or re.search(r"idx = (\d+)", res.stdout)
+            if not m:
+                merged.rc = res.rc
+                return merged
+            bad = int(m.group(1)) - 1
+            done = {v["id"] for v in common.tlc_values(merged, "PRED")}
+            with open(os.path.join(common.WORK, "oracle_error_%s_%s.log" % (tag, part[bad]["id"])), "w") as f:
+                f.write(res.stdout[-20000:])
+            oracle_errors.append(part[bad]["id"])
+            part = [p for k, p in enumerate(part) if k != bad and p["id"] not in done]
+            if not part:
+                merged.rc = 0
+                return merged
+            with open(paths[i], "w") as f:
+                for pr in part:
+                    f.write(json.dumps(pr) + "\n")
+        merged.rc = 1
+        return merged
 
     with ThreadPoolExecutor(shards) as ex:
         results = list(ex.map(one, range(shards)))
@@ -47,6 +82,10 @@ def predict(progs, tag="core", shards=8, workers_per=2, timeout=900, dev=()):
             os.remove(p)
         except OSError:
             pass
+    for pid in oracle_errors:
+        preds[pid] = {"id": pid, "status": "unspec", "why": "oracle-evaluation-error", "out": []}
+    if len(oracle_errors) > max(3, len(progs) // 200):
+        raise common.ToolError("the oracle failed to evaluate %d programs (see work/oracle_error_*.log)" % len(oracle_errors))
     missing = [p["id"] for p in progs if p["id"] not in preds]
     if missing:
         raise common.ToolError("TLC oracle produced no prediction for %d programs (e.g. %s)" % (len(missing), missing[:3]))
